@@ -290,8 +290,10 @@ def judge(case, sc, b, run, w):
         if fe and not fe[0][3]:     # not written by the application
             got = [H.norm(e) for e in evs if e.name != 'poll']
             base = b['events']
-            gp = [g for g in got if g[0] != 'disconnected']
-            bp = [g for g in base if g[0] != 'disconnected']
+            # a Ping that never reached the (reactive) peer is not answered: Pong events are the
+            # peer's reaction, not lomond's, so they are left out of the comparison
+            gp = [g for g in got if g[0] not in ('disconnected', 'pong')]
+            bp = [g for g in base if g[0] not in ('disconnected', 'pong')]
             if gp != bp[:len(gp)]:
                 detail['baseline'] = base[-8:]
                 return 'failed-library-write-disturbed-event-stream', detail
